@@ -1,47 +1,72 @@
+#!/usr/bin/env python3
+"""Regenerates /verif/MANIFEST.json from the table below (kept next to the checks so the two do not drift)."""
 import json
-claimed = {
- "C01": ("history_refines: for every finite history the tree machine (Go's recursiveSet/recursiveRemove/balance/get/has/getByIndex/range walk) answers exactly as the versioned map — proved by induction over operations for any lawful key order; the model is tied to /repo by running the compiled model and the real library on generated and corpus histories over the option grid (cache, fast index, flush threshold, backend, initial version) and comparing every answer", "5.C01"),
- "C02": ("the canonical hash is the model's hashNode over the version machine's trees (independent implementation incl. SHA-256 written in Lean); proved: working hash = commit hash, persisted hash independent of query version, reads preserve state; every hash the library returns (commit, working, per retained version, after reopen/prune/rollback) is compared byte for byte", "5.C02"),
- "C03": ("proved for an arbitrary 32-byte hash: generated existence proofs compute the root hash for every tree and key, are complete for present keys, and are sound modulo an explicit hash collision; non-membership construction and the real ics23 verifier's verdict (genuine and mutated claims, other roots) are tied by correspondence", "5.C03"),
- "C04": ("version-machine theorems (deletion removes exactly versions <= n, later versions and working state untouched, deleting the latest rejected) + orphans_exact (the two-cursor diff deletes exactly the nodes the next version does not use); the storage machine under small flush thresholds is tied by correspondence over prune-heavy histories", "5.C04"),
- "C07": ("overlay-merge theorems (members and order of the index-plus-uncommitted iterator); index coherence across build / disable / re-enable / older-version loads / rollback is decided by correspondence: every indexed answer (Get, GetVersioned, iterators) against the model of the tree walk", "5.C07"),
- "C08": ("walk_eq_spec: the pruned tree walk yields exactly rangeSpec for all bounds, both directions, inclusive or not; overlay iterator = overlaid state; the three iterator implementations and the callback/stop variants are compared with the model on generated bounds", "5.C08"),
- "C09": ("version-machine theorems for Rollback, LoadVersionForOverwriting and DeleteVersionsFrom (exactly the versions above the target disappear, working state = target); twin-equivalence of all later observations follows from determinism of the machine; tied by correspondence incl. fast index on/off and reopen", "5.C09"),
- "C14": ("version-machine theorems (query agreement, commit onto an existing version succeeds iff same hash and changes nothing, new commit appends exactly one version, out-of-range loads fail and leave the machine unchanged) + correctness of the first-version binary search under root-key monotonicity; tied by correspondence with every version number queried", "5.C14"),
-}
-claimed.update({
- "C10": ("importer modelled as a total state machine: proved that Add and the decompressor never reach a Go panic for any node on any stack, import(export t) = t for persisted AVL trees, delta codec lossless; export streams (plain/compressed), import of genuine and hostile streams (result class, visibility, later hashes) compared with the model", "5.C10"),
- "C11": ("AVL preservation by set/remove with exact stored heights and sizes, fib(h+2) <= n, lookup by key = (rank, value), lookup by rank = i-th pair: proved; height/size/rank answers compared with the model, AVL real-valued bound and storage-read counts (cache 0) checked on the implementation", "5.C11"),
- "C12": ("the raw storage after every step is decoded by the model's proved-inverse decoder and audited against the model's retained versions (every retained tree rebuilt through root markers and child links equals the reference, no unreachable node, index = latest pairs); orphan-diff exactness proved", "5.C12"),
-})
-claimed["C18"] = ("the contract is the sorted-map machine kvStep; proved: namespace = half-open range up to the cut incremented prefix for every non-empty prefix (0xFF runs included) and the counterexample for the former same-length bound, no empty key / nil value stored, reads pure; MemDB, GoLevelDB, PrefixDB over both are run on identical generated programs (0x00/0xFF alphabet, foreign neighbour keys, batches) and compared with the contract and with each other", "5.C18")
-na = {
- "C05": "check not built yet in this session (crash-cut enumeration planned, DESIGN 5.C05)",
- "C06": "check not built yet in this session (schedule exploration via verif yield hooks planned, DESIGN 5.C06)",
- "C13": "check not built yet in this session", "C15": "check built (correspondence with the executable change-set specification); theorems pending, not claimed yet", "C16": "check not built yet in this session",
- "C17": "check not built yet in this session",
- "C19": "check not built yet in this session", "C20": "check not built yet in this session",
-}
 import os
-if os.path.exists('/tmp/na_override.json'):
-    na = json.load(open('/tmp/na_override.json'))
-base_cmd = "for m in . ; do (cd /repo/$m && go test -vet=off -count=1 -timeout 25m ./...); done"
-m = {
- "version": 1,
- "setup_cmd": "bin/setup",
- "hooks": {"guard": "verif", "enable": "go build -tags verif (harness modules replace github.com/cosmos/iavl => /repo)",
-           "baseline_off_cmd": "cd /repo && for m in . cmd v2; do (cd $m && GOFLAGS=-mod=mod go test -vet=off -count=1 -timeout 25m ./...); done",
-           "source_commits": ["verif hooks: VerifFacts and no-op yield points (build tag verif)"], "add_only": True},
- "engines": [{"name": "lean-model", "path": "lean", "serves_properties": sorted(claimed), "kind_free_text": "Lean 4 model + theorems + compiled driver"},
-             {"name": "harness-v1", "path": "harness/v1", "serves_properties": sorted(claimed), "kind_free_text": "Go correspondence harness (build tag verif)"}],
- "checks": [], "not_applicable": [{"property_id": k, "reason": v} for k, v in sorted(na.items())],
- "notes": "See DESIGN.md. Every check is `bin/check Cxx`; it rebuilds the harness and the model facts from /repo's current tree.",
+import sys
+
+ROOT = os.path.dirname(os.path.dirname(os.path.abspath(__file__)))
+sys.path.insert(0, os.path.join(ROOT, "lib"))
+
+NOTE = ("Trusted: Lean 4.33 kernel (axioms propext, Classical.choice, Quot.sound only; audited by #print axioms on every run, "
+        "grep gate for sorry/native_decide/bv_decide/implemented_by); the hand-written model is tied to the code by differential "
+        "execution (Go harness built from /repo with tag verif + compiled model driver) and by Facts.lean regenerated from the "
+        "compiled constants, so assurance outside the explored histories rests on the model being faithful; SHA-256 in Lean is "
+        "compared on every hash, not proved; caches, logging, real durability of the backends are not modelled.")
+
+T_PROOF = "Lean 4 theorem (induction / refinement over the model) + model-vs-implementation correspondence on generated histories"
+
+CLAIMED = {
+ "C01": ("proof", "history_refines: for every finite history the tree machine (Go's recursiveSet/recursiveRemove/balance/get/has/getByIndex/range walk) answers exactly as the versioned map - proved by induction over operations for any lawful key order; the model is tied to /repo by running the compiled model and the real library on generated and corpus histories over the option grid (cache, fast index, flush threshold, backend, initial version) and comparing every answer", "5.C01", T_PROOF),
+ "C02": ("proof", "the canonical hash is the model's hashNode over the version machine's trees (independent implementation incl. SHA-256 written in Lean); proved: working hash = commit hash, persisted hash independent of query version, reads preserve state; every hash the library returns (commit, working, per retained version, after reopen/prune/rollback/import) is compared byte for byte", "5.C02", T_PROOF),
+ "C03": ("proof", "proved for an arbitrary 32-byte hash: generated existence proofs compute the root hash for every tree and key, are complete for present keys, and are sound modulo an explicit hash collision; non-membership construction and the real ics23 verifier's verdict (genuine and mutated claims, other roots) are tied by correspondence", "5.C03", T_PROOF),
+ "C04": ("proof", "version-machine theorems (deletion removes exactly versions <= n, later versions and working state untouched, deleting the latest rejected) + orphans_exact (the two-cursor diff deletes exactly the nodes the next version does not use); the storage machine under small flush thresholds is tied by correspondence over prune-heavy histories incl. raw-store audit", "5.C04", T_PROOF),
+ "C05": ("fault_enumeration", "exhaustive enumeration, on the implementation's own recorded write log, of every boundary between two physical writes of every mutating operation: reopen on the image, Load, all versions by tree walk and through the index, retry of the operation; judged against the states before/after. Lean contributes flush_split_same_result / cut_image (splitting a batch never changes the result; a cut image is a prefix image). Multi-batch operations are NOT atomic on the unchanged tree (K7, K7c recorded)", "5.C05", "crash-cut enumeration on the implementation + Lean lemma on batch splitting"),
+ "C07": ("proof", "overlay-merge theorems (members and order of the index-plus-uncommitted iterator); index coherence across build / disable / re-enable / older-version loads / rollback is decided by correspondence: every indexed answer (Get, GetVersioned, iterators) against the model of the tree walk, and the raw f-entries + label against the latest version", "5.C07", T_PROOF),
+ "C08": ("proof", "walk_eq_spec: the pruned tree walk yields exactly rangeSpec for all bounds, both directions, inclusive or not; overlay iterator = overlaid state; the three iterator implementations and the callback/stop variants are compared with the model on generated bounds", "5.C08", T_PROOF),
+ "C09": ("proof", "version-machine theorems for Rollback, LoadVersionForOverwriting and DeleteVersionsFrom (exactly the versions above the target disappear, working state = target); equality of all later observations follows from determinism of the machine; tied by correspondence incl. fast index on/off and reopen", "5.C09", T_PROOF),
+ "C10": ("proof", "importer modelled as a total state machine: proved that Add and the decompressor never reach a Go panic for any node on any stack, import(export t) = t for persisted AVL trees, delta codec lossless; export streams (plain/compressed), import of genuine and hostile streams (result class, visibility, later hashes) compared with the model", "5.C10", T_PROOF),
+ "C11": ("proof", "AVL preservation by set/remove with exact stored heights and sizes, fib(h+2) <= n, lookup by key = (rank, value), lookup by rank = i-th pair: proved; height/size/rank answers compared with the model, AVL real-valued bound and storage-read counts (cache 0) checked on the implementation", "5.C11", T_PROOF),
+ "C12": ("proof", "the raw storage after every step is decoded by the model's proved-inverse decoder and audited against the model's retained versions (every retained tree rebuilt through root markers and child links equals the reference, no unreachable node, index = latest pairs); orphan-diff exactness proved", "5.C12", T_PROOF),
+ "C14": ("proof", "version-machine theorems (query agreement, commit onto an existing version succeeds iff same hash and changes nothing, new commit appends exactly one version, out-of-range loads fail and leave the machine unchanged) + correctness of the first-version binary search under root-key monotonicity; tied by correspondence with every version number queried", "5.C14", T_PROOF),
+ "C15": ("translation_validation", "TraverseStateChanges / SaveChangeSet are compared on every history with the executable Lean specification changeSet (new leaves merged with vanished leaves in key order) and by replaying extracted change sets into an empty tree; only structural lemmas of the merge are proved so far (apply-changeset theorem still a goal)", "5.C15", "executable Lean specification vs implementation on generated histories"),
+ "C17": ("fault_enumeration", "single-fault enumeration: every storage call (Get, Has, iterator creation/step, batch Set/Delete/Write) of every operation fails in turn; outcome must be an error or the fault-free answer, and the store left by a failed write must reopen to before/after; reference answers come from the model", "5.C17", "fault enumeration on the implementation, reference answers from the Lean model"),
+ "C18": ("proof", "the contract is the sorted-map machine kvStep; proved: namespace = half-open range up to the cut incremented prefix for every non-empty prefix (0xFF runs included) and the counterexample for the former same-length bound, no empty key / nil value stored, reads pure; MemDB, GoLevelDB, PrefixDB over both are run on identical generated programs (0x00/0xFF alphabet, foreign neighbour keys, batches) and compared with the contract and with each other", "5.C18", T_PROOF),
 }
-for k,(txt,ref) in sorted(claimed.items()):
-    m["checks"].append({
-      "property_id": k, "quick_cmd": "bin/check %s --tier quick" % k, "thorough_cmd": "bin/check %s --tier thorough" % k,
-      "evidence_file": "/verif/evidence/%s.json" % k, "replay_cmd_template": "bin/check %s --replay {path}" % k,
-      "engine": "lean-model", "level_claimed": {"category": "proof", "text": txt, "design_ref": ref},
-      "level_note": "Trusted: Lean kernel (axioms propext, Classical.choice, Quot.sound only; audited each run); the hand-written model is tied to the code by differential execution (harness + compiled model driver), so assurance outside the explored histories rests on the model being faithful; SHA-256 in Lean is compared, not proved; caches, logging, durability of the backends are not modelled.",
-      "technique": "Lean 4 theorem (induction/refinement) + model-vs-implementation correspondence on generated histories"})
-json.dump(m, open('/verif/MANIFEST.json','w'), indent=1)
+
+NA = {
+ "C06": "check not built yet (schedule exploration through the verif yield hooks is planned, DESIGN 5.C06)",
+ "C13": "check not built yet (codec round trips are proved in Lean; the decoder fuzz / encoder direction harness is pending)",
+ "C16": "check not built yet (legacy database generator + dual-format model pending)",
+ "C19": "check not built yet (v2 harness pending)",
+ "C20": "check not built yet (v2 harness pending)",
+}
+
+
+def main():
+    m = {
+        "version": 1,
+        "setup_cmd": "bin/setup",
+        "hooks": {"guard": "verif",
+                  "enable": "go build -tags verif (harness modules use `replace github.com/cosmos/iavl => /repo`)",
+                  "baseline_off_cmd": "cd /repo && for m in . cmd v2; do (cd $m && GOFLAGS=-mod=mod go test -vet=off -count=1 -timeout 25m ./...); done",
+                  "source_commits": ["verif hooks: VerifFacts and no-op yield points (build tag verif)"],
+                  "add_only": True},
+        "engines": [
+            {"name": "lean-model", "path": "lean", "serves_properties": sorted(CLAIMED), "kind_free_text": "Lean 4 model, theorems (Iavl/Props), compiled driver"},
+            {"name": "harness-v1", "path": "harness/v1", "serves_properties": sorted(CLAIMED), "kind_free_text": "Go correspondence harness (modes exec, kv, crash, fault), build tag verif"}],
+        "checks": [],
+        "not_applicable": [{"property_id": k, "reason": v} for k, v in sorted(NA.items())],
+        "notes": "See DESIGN.md. Every check is `bin/check Cxx`; it rebuilds the harness and the model facts from /repo's current tree. Genuine defects found are in known_findings.json (fixed ones as `fix:` commits in /repo).",
+    }
+    for k, (cat, txt, ref, tech) in sorted(CLAIMED.items()):
+        m["checks"].append({
+            "property_id": k, "quick_cmd": "bin/check %s --tier quick" % k, "thorough_cmd": "bin/check %s --tier thorough" % k,
+            "evidence_file": "/verif/evidence/%s.json" % k, "replay_cmd_template": "bin/check %s --replay {path}" % k,
+            "engine": "lean-model", "level_claimed": {"category": cat, "text": txt, "design_ref": ref},
+            "level_note": NOTE, "technique": tech})
+    json.dump(m, open(os.path.join(ROOT, "MANIFEST.json"), "w"), indent=1)
+    json.dump({k: v[0] for k, v in CLAIMED.items()}, open(os.path.join(ROOT, "lib", "levels.json"), "w"), indent=1)
+
+
+if __name__ == "__main__":
+    main()
